@@ -1,7 +1,7 @@
 (* C03 — Inline SQL selects exactly the rows the query means. *)
 Require Import Parser Render PgModel QuerySem SqlSem SqlFrag.
 Require Import SemPattern.
-Require SqlParse SqlSemProof.
+Require SqlParse SqlSemProof SqlEndToEnd.
 From Coq Require Import List String ZArith.
 Import ListNotations.
 
@@ -27,7 +27,22 @@ Proof. exact SqlParse.tr_parses. Qed.
 Theorem C03_sql_true_on_exactly_the_rows_of_the_query : forall (r : row) (e : Parser.expr) (ts : list tok) (a : ast),
   tr e = Some (ts, a) -> side e = true ->
   pg_parse ts = Some a /\ ssem r [] a = qsem r e.
-Proof. intros r e ts a T S. split; [exact (SqlParse.tr_parses e ts a T)|exact (SqlSemProof.tr_sem r e ts a T S)]. Qed.
+Proof. intros r e ts a T S. split; [exact (SqlParse.tr_parses e ts a T)|exact (SqlSemProof.tr_sem r [] e ts a T S)]. Qed.
+
+(* The same on the MODEL's renderer, end to end: whenever Render returns a text s for a tree of the fragment, PostgreSQL -
+   scanner model and grammar model, pg_read - reads from s exactly the expression a, and a is true on exactly the rows of the
+   query. Further premises, all decidable and counted per case by the driver: text_ok (integers in ranges within int64, a
+   pattern not of the /.../ form that the renderer writes with the regular-expression operator), names_ok (field names non-empty,
+   without a double quote, at most 63 bytes: longer ones are truncated by PostgreSQL, K9). What remains outside the theorem is
+   that ToPostgres SUCCEEDS on the fragment (checked per case) and the tie of the model's Render to the Go code (correspondence). *)
+Theorem C03_rendered_sql_is_true_on_exactly_the_rows_of_the_query :
+  forall (o2 : oracle2) (r : row) (e : Parser.expr) (ts : list tok) (a : ast) (s : string),
+  tr e = Some (ts, a) -> side e = true -> text_ok e = true -> names_ok e = true ->
+  render o2 e = Ret (s, None) ->
+  pg_read (str s) = Some a /\ ssem r [] a = qsem r e.
+Proof.
+  intros o2 r e ts a s T S Ok Nm R. split; [exact (SqlEndToEnd.render_reads o2 e ts a s T Ok Nm R)|exact (SqlSemProof.tr_sem r [] e ts a T S)].
+Qed.
 
 (* the premises are met by a tree with every construct of the fragment: a must-clause over a range and a negated wildcard
    pattern, OR a value list with a negative integer AND a prohibited quoted string, OR a comparison *)
@@ -41,9 +56,10 @@ Definition sample_tree : Parser.expr :=
                          (VExp (node (VExp (node (colv "t") Equals (VExp (lit (VStr "x y"))))) MustNot VNil))))))
        Or (VExp (node (colv "m") GreaterEq (VExp (lit (VInt 7))))).
 Example C03_premises_are_satisfiable :
-  side sample_tree = true /\ exists ts a, tr sample_tree = Some (ts, a) /\ Nat.leb 40 (List.length ts) = true.
-Proof. split; [vm_compute; reflexivity|]. eexists; eexists; split; [vm_compute; reflexivity|vm_compute; reflexivity]. Qed.
+  side sample_tree = true /\ text_ok sample_tree = true /\ names_ok sample_tree = true /\ exists ts a, tr sample_tree = Some (ts, a) /\ Nat.leb 40 (List.length ts) = true.
+Proof. split; [vm_compute; reflexivity|]. split; [vm_compute; reflexivity|]. split; [vm_compute; reflexivity|]. eexists; eexists; split; [vm_compute; reflexivity|vm_compute; reflexivity]. Qed.
 
 Print Assumptions C03_pattern_translation_preserves_meaning.
 Print Assumptions C03_grammar_reads_the_query_structure.
 Print Assumptions C03_sql_true_on_exactly_the_rows_of_the_query.
+Print Assumptions C03_rendered_sql_is_true_on_exactly_the_rows_of_the_query.
